@@ -1,2 +1,44 @@
+/-
+  Driver/C11.lean — drv_c11: the NTS ops shared with drv_c10 (Driver/NtsOps.lean) plus the op of
+  the live client exchanges (harness c03 -prop c11):
+
+  cl.exch tr=ip|scion pool=[cookies] c2s=K s2c=K hdr=H48 now=NS dl=MS rand=R48 d=[payloads] seal=… open=…
+      -> ok req=<request payload> res=accept|reject pool=[cookies afterwards]
+
+  One whole exchange of the real client (`measureClockOffsetIP` / `measureClockOffsetSCION`) with
+  the pool preloaded: `hdr` is the NTP header the client builds, `rand` the bytes it draws from
+  `crypto/rand` (32 for the unique identifier, 16 for the nonce), `d` the NTP/NTS payloads the
+  peer delivers, in order. `tr`, `now` and `dl` only matter to the harness (transport, scripted
+  clock reading, deadline). The op is self-contained (stateless).
+-/
 import Driver.NtsOps
-def main : IO Unit := Driver.run NtsOps.init NtsOps.step
+open Driver ScionTime.Nts
+
+namespace C11Ops
+
+def exch (toks : List String) : Option String := do
+  let A ← NtsOps.aead? toks
+  let rnd ← NtsOps.rand? toks
+  let pool ← (kv? toks "pool") >>= NtsOps.parseHexList?
+  let c2s ← (kv? toks "c2s") >>= parseHex?
+  let s2c ← (kv? toks "s2c") >>= parseHex?
+  let hdr ← (kv? toks "hdr") >>= parseHex?
+  let ds ← (kv? toks "d") >>= NtsOps.parseHexList?
+  let tr ← kv? toks "tr"
+  if tr ≠ "ip" ∧ tr ≠ "scion" then none else
+  let st : ScionTime.NtsPool.Client := { pool := pool, c2s := c2s, s2c := s2c, reqId := [] }
+  match ScionTime.NtsPool.exchange A st hdr rnd ds with
+  | (st', .ok (req, acc)) =>
+    some s!"ok req={toHex req} res={if acc then "accept" else "reject"} pool={NtsOps.fmtHexList st'.pool}"
+  | (_, .err e) => some ("err " ++ e.name)
+  | (_, .panic p) => some ("panic " ++ p.name)
+  | (_, .hang) => some "hang"
+
+def step (st : NtsOps.St) (toks : List String) : NtsOps.St × String :=
+  match toks with
+  | "cl.exch" :: _ => (st, (exch toks).getD "bad-op")
+  | _ => NtsOps.step st toks
+
+end C11Ops
+
+def main : IO Unit := Driver.run NtsOps.init C11Ops.step
